@@ -675,4 +675,108 @@ theorem run_cadInv (st : State) (evs : List Event) (hid : IdsNodup st) (rid c to
       exact ⟨h1, h2, rfl, fun o ho _ => ⟨Nat.zero_le _, h3 o ho⟩⟩)
   simpa using this
 
+
+/-! ### (5) the latest state is eventually notified -/
+/-- datagram `a` told (session c, token tok) the resource state with Observe value `obs` and version `ver` (a 2.05 notification,
+    or the 2.05 response to its registration) -/
+def Told (a : Out) (c tok obs ver : Nat) : Prop :=
+  (a.tag = .note ∨ a.tag = .resp) ∧ a.c = c ∧ a.token = tok ∧ a.code = 69 ∧ a.obs = some obs ∧ a.ver = ver
+
+theorem Visits.mem_sub' {d : Bool} {r : Res} {subs subs' : List Sub} {pd : Bool} {outs : List Out}
+    (h : Visits d r subs subs' pd outs) :
+    ∀ o' ∈ subs', ∃ o ∈ subs, ∃ pd1 po, Visit d r o (some o') pd1 po ∧ (∀ x ∈ po, x ∈ outs) ∧ (pd1 = true → pd = true) := by
+  induction h with
+  | nil => intro o' ho'; cases ho'
+  | @cons o s pd outs rest subs' pd' outs' hv _ ih =>
+    intro o' ho'
+    rcases List.mem_append.mp ho' with ho' | ho'
+    · cases s with
+      | none => simp at ho'
+      | some o'' =>
+        simp at ho'; subst ho'
+        exact ⟨o, List.mem_cons_self .., pd, outs, hv, fun x hx => List.mem_append_left _ hx, fun h => by simp [h]⟩
+    · obtain ⟨o1, ho1, pd1, po, h1, h2, h3⟩ := ih o' ho'
+      exact ⟨o1, List.mem_cons_of_mem _ ho1, pd1, po, h1, fun x hx => List.mem_append_right _ (h2 x hx), fun h => by simp [h3 h]⟩
+
+/-- a clean entry of a clean (alive) resource has been told the resource's current state; a dirty entry keeps the resource
+    `partiallydirty` -/
+structure LiveInv (y : Res) (acc : List Out) : Prop where
+  told : y.alive = true → y.dirty = false → ∀ o ∈ y.subs, o.dirty = false → ∃ a ∈ acc, Told a o.sess o.token y.observe y.ver
+  pd : ∀ o ∈ y.subs, o.dirty = true → y.pdirty = true
+
+theorem LiveInv.micro {A : Nat → Nat → Nat → Prop} (y : Res) (o : List Out) (y' : Res) (acc : List Out)
+    (h : LiveInv y acc) (hm : Micro A y o y') : LiveInv y' (acc ++ o) := by
+  cases hm with
+  | le hle =>
+    rw [List.append_nil]
+    refine ⟨?_, ?_⟩
+    · intro hal hd o' ho' hod
+      obtain ⟨o1, ho1, hc⟩ := hle.mem_sub ho'
+      have hf := coreF_fields hc
+      rw [hle.observe, hle.ver, ← hf.1, ← hf.2.1]
+      exact h.told (hle.alive ▸ hal) (hle.dirty ▸ hd) o1 ho1 (hf.2.2.2.1 ▸ hod)
+    · intro o' ho' hod
+      obtain ⟨o1, ho1, hc⟩ := hle.mem_sub ho'
+      rw [hle.pdirty]
+      exact h.pd o1 ho1 ((coreF_fields hc).2.2.2.1 ▸ hod)
+  | errFlag b => rw [List.append_nil]; exact ⟨h.told, h.pd⟩
+  | change =>
+    rw [List.append_nil]
+    exact ⟨(fun _ hd => by cases hd), h.pd⟩
+  | register c' tok' key m out hA' hal herr htag hc ht hcode hobs hver hres =>
+    have hf := addToRes_fields y c' tok' key m
+    refine ⟨?_, ?_⟩
+    · intro hal' hd o' ho' hod
+      rw [hf.2.2.2.2.2.2.2.1, hf.2.2.2.2.2.2.1]
+      rcases mem_addToRes ho' with rfl | ho1
+      · exact ⟨out, by simp, Or.inr htag, hc, ht, hcode, hobs, hver⟩
+      · obtain ⟨a, ha, hta⟩ := h.told hal (hf.2.2.2.2.1 ▸ hd) o' ho1 hod
+        exact ⟨a, List.mem_append_left _ ha, hta⟩
+    · intro o' ho' hod
+      rw [hf.2.2.2.2.2.1]
+      rcases mem_addToRes ho' with rfl | ho1
+      · cases hod
+      · exact h.pd o' ho1 hod
+  | resp out htag _ =>
+    refine ⟨?_, h.pd⟩
+    intro hal hd o' ho' hod
+    obtain ⟨a, ha, hta⟩ := h.told hal hd o' ho' hod
+    exact ⟨a, List.mem_append_left _ ha, hta⟩
+  | notify hal hv =>
+    refine ⟨?_, ?_⟩
+    · intro _ _ o' ho' hod
+      obtain ⟨o1, ho1, pd1, po, hvis, hpo, _⟩ := hv.mem_sub' o' ho'
+      cases hvis with
+      | skip hyd hod1 =>
+        obtain ⟨a, ha, hta⟩ := h.told hal hyd _ ho1 hod1
+        exact ⟨a, List.mem_append_left _ ha, hta⟩
+      | defer => cases hod
+      | bye _ _ _ hd => cases hd
+      | sent m n hst hd he =>
+        refine ⟨_, List.mem_append_right _ (hpo _ (List.mem_cons_self ..)), ?_⟩
+        simp [Told, noteOut]
+    · intro o' ho' hod
+      obtain ⟨o1, ho1, pd1, po, hvis, _, hpd⟩ := hv.mem_sub' o' ho'
+      cases hvis with
+      | skip hyd hod1 => rw [hod1] at hod; cases hod
+      | defer => exact hpd rfl
+      | bye _ _ _ hd => cases hd
+      | sent => cases hod
+  | bye pd' hal hv => exact ⟨(fun h' => by cases h'), (fun o' ho' => by cases ho')⟩
+  | clean hc =>
+    rw [List.append_nil]
+    refine ⟨?_, h.pd⟩
+    intro hal _ o' ho' hod
+    rcases hc with hc | hc
+    · rw [hc] at hal; cases hal
+    · exact h.told hal hc o' ho' hod
+  | delete pd => exact ⟨(fun h' => by cases h'), (fun o' ho' => by cases ho')⟩
+
+theorem run_liveInv (st : State) (evs : List Event) (hid : IdsNodup st) (h0 : ∀ y ∈ st.res, LiveInv y []) :
+    ResInv LiveInv (run st evs).1 (run st evs).2 := by
+  have := run_resInv (Q := LiveInv) (fun _ => True) (fun e _ y o y' a hq hm => LiveInv.micro y o y' a hq hm)
+    evs st [] hid (fun _ _ => trivial) (fun y hy => h0 y hy)
+  simpa using this
+
+
 end Coap.Observe
